@@ -107,8 +107,8 @@ func checkC18(c *Ctx) {
 }
 
 func (c *Ctx) ledgerSequence(i int, rng *rand.Rand) {
-	dirA := c.Dir(fmt.Sprintf("c18-%d-a", i))
-	dirB := c.Dir(fmt.Sprintf("c18-%d-b", i))
+	dirA := c.DirI(i, fmt.Sprintf("c18-%d-a", i))
+	dirB := c.DirI(i, fmt.Sprintf("c18-%d-b", i))
 	defer os.RemoveAll(dirA)
 	defer os.RemoveAll(dirB)
 	mk := func() *kvItem { return &kvItem{} }
